@@ -14,7 +14,14 @@ import (
 	"golang.org/x/tools/go/ssa/ssautil"
 )
 
-const repoDir = "/repo"
+// repoDir is the tree under check: /repo, or $VX_REPO (used only to try the checks on a scratch
+// worktree with a seeded change while other runs use /repo).
+var repoDir = func() string {
+	if d := os.Getenv("VX_REPO"); d != "" {
+		return d
+	}
+	return "/repo"
+}()
 const modPath = "github.com/alowayed/go-univers"
 
 type Program struct {
